@@ -27,6 +27,9 @@ Streams
   classes      every class that defines its own `align` (list extracted from source each run): Tensor, default
                Funsor.align/Align, Contraction, Constant, Delta, Gaussian; inputs with pairwise different domains;
                gate = exact name->domain OrderedDict, value at every point, sum over each input vs brute force
+  makeop       funsor.make_op ops (the eager rule to_data-by-name -> raw fn -> to_funsor): unary / binary, non
+               commutative raw functions, event shapes, int dtype; operands over every ordered subset pair of a
+               3-name pool, sizes all-equal / mixed / with a size-1 input; value at every named point gated
   index        ravel / unravel of the model vs numpy on a box
 """
 import itertools
@@ -1351,8 +1354,54 @@ def scan_align_classes():
     return sorted(set(classes)), sorted(set(rules))
 
 
+def scan_realign_callers():
+    """AST scan of funsor/*.py except tensor.py: (module, enclosing function, callee) for every call of
+    to_data(..., name_to_dim) / to_funsor(..., dim_to_name) / align_tensor(s) — the places that re-align
+    operands by name on top of the conversions modelled here."""
+    import ast
+    from ..common import REPO
+    out = set()
+    for f in sorted((REPO / "funsor").glob("*.py")):
+        if f.stem == "tensor":
+            continue
+        tree = ast.parse(f.read_text())
+
+        def visit(node, fn):
+            for ch in ast.iter_child_nodes(node):
+                nfn = ch.name if isinstance(ch, (ast.FunctionDef, ast.ClassDef)) else None
+                cur = (fn + "." + nfn) if (fn and nfn) else (nfn or fn)
+                if isinstance(ch, ast.Call):
+                    name = ch.func.id if isinstance(ch.func, ast.Name) else (
+                        ch.func.attr if isinstance(ch.func, ast.Attribute) else None)
+                    kws = {k.arg for k in ch.keywords}
+                    if name == "to_data" and ("name_to_dim" in kws or len(ch.args) >= 2):
+                        out.add((f.stem, fn or "<module>", "to_data"))
+                    if name == "to_funsor" and ("dim_to_name" in kws or len(ch.args) >= 3):
+                        out.add((f.stem, fn or "<module>", "to_funsor"))
+                    if name in ("align_tensors", "align_tensor"):
+                        out.add((f.stem, fn or "<module>", name))
+                visit(ch, cur)
+        visit(tree, None)
+    return sorted(out)
+
+
+# callers with a stream in this harness
+COVERED_CALLERS = {"op_factory.eager_tensor_made_op": "makeop", "gaussian.align_gaussian": "classes (Gaussian)"}
+
+
 def extract(ctx):
     from ..common import LEAN
+    callers = scan_realign_callers()
+    fns = sorted({f"{m}.{fn}" for m, fn, _ in callers})
+    ctx.extra["realign_callers"] = fns
+    body2 = ("/- GENERATED by fv/harness/c19.py extract() from /repo/funsor/*.py (tensor.py excluded) on every run:\n"
+             "   the functions that call to_data(…, name_to_dim) / to_funsor(…, dim_to_name) / align_tensor(s). -/\n"
+             "namespace FV.Gen.C19Callers\n\n"
+             "def realignCallers : List String :=\n  [" + ",\n   ".join(f'"{c}"' for c in fns) + "]\n\n"
+             "end FV.Gen.C19Callers\n")
+    out2 = LEAN / "FunsorVerif" / "Gen" / "C19Callers.lean"
+    if not out2.exists() or out2.read_text() != body2:
+        out2.write_text(body2)
     classes, rules = scan_align_classes()
     import importlib
     for mod, cls in classes:
@@ -1638,6 +1687,182 @@ def classes_stream(ctx, n_rounds):
 
 
 # ------------------------------------------------------------------------------------------
+# stream: funsor.make_op ops (op_factory.eager_tensor_made_op): to_data by name, raw fn, to_funsor
+# ------------------------------------------------------------------------------------------
+
+_MADE = {}
+
+
+def made_ops():
+    if _MADE:
+        return _MADE
+    from funsor import make_op
+
+    @make_op
+    def axpy(x: Real, y: Real) -> Real:
+        return x + 100.0 * y
+
+    @make_op
+    def sub2(x: Real, y: Real) -> Real:
+        return x - 2.0 * y
+
+    @make_op
+    def unary3(x: Real) -> Real:
+        return 3.0 * x + 1.0
+
+    @make_op
+    def outer(x: Reals[2], y: Reals[3]) -> Reals[2, 3]:
+        return x[..., :, None] + 100.0 * y[..., None, :]
+
+    @make_op
+    def iaxpy(x: Bint[1000], y: Bint[1000]) -> Bint[200000]:
+        return x + 100 * y
+    _MADE.update(axpy=(axpy, lambda a, b: a + 100.0 * b, (), (), "real"),
+                 sub2=(sub2, lambda a, b: a - 2.0 * b, (), (), "real"),
+                 outer=(outer, lambda a, b: a[:, None] + 100.0 * b[None, :], (2,), (3,), "real"),
+                 iaxpy=(iaxpy, lambda a, b: a + 100 * b, (), (), 1000),
+                 unary3=(unary3, lambda a: 3.0 * a + 1.0, (), None, "real"))
+    return _MADE
+
+
+def py_makeop_snippet(c):
+    return f"""
+# C19 replay: a funsor.make_op op must give fn(x(point), y(point)) at every named point
+import itertools, numpy as np, funsor
+from collections import OrderedDict
+from funsor import Bint, Real, Tensor, make_op
+funsor.set_backend("numpy")
+@make_op
+def axpy(x: Real, y: Real) -> Real:
+    return x + 100.0 * y
+sizes = {c['sizes']!r}; xk = {c['x']!r}; yk = {c['y']!r}
+def mk(keys, off):
+    shape = [sizes[k] for k in keys]
+    return Tensor(np.arange(float(np.prod(shape))).reshape(shape) + off, OrderedDict((k, Bint[sizes[k]]) for k in keys))
+x, y = mk(xk, 1.0), mk(yk, 0.25)
+z = axpy(x, y)
+names = list(dict.fromkeys(xk + yk))
+FAILS = not isinstance(z, Tensor) or set(z.inputs) != {{k for k in names if sizes[k] != 1}}
+for pt in ([] if FAILS else itertools.product(*[range(sizes[k]) for k in names])):
+    env = dict(zip(names, pt))
+    e = float(x.data[tuple(env[k] for k in xk)]) + 100.0 * float(y.data[tuple(env[k] for k in yk)])
+    FAILS = FAILS or float(z.data[tuple(env[k] for k in z.inputs)]) != e
+print("inputs", list(getattr(z, "inputs", [])), "FAILS", FAILS)
+"""
+
+
+def makeop_stream(ctx, n, use_driver=True):
+    rng = ctx.rng
+    made = made_ops()
+    pool3 = ["a", "b", "c"]
+    subsets = [list(p) for k in range(4) for p in itertools.permutations(pool3, k)]       # 16 ordered subsets
+    pairs = [(x, y) for x in subsets for y in subsets]
+    todo = []
+    for i in range(n):
+        if i < len(pairs) and (ctx.tier != "quick" or rng.random() < 0.6):
+            xk, yk = pairs[i]                       # exhaustive over ordered-subset pairs (thorough: all)
+        else:
+            xk, yk = rng.choice(subsets), rng.choice(subsets)
+        names = rng.sample(NAMES, 3)
+        ren = dict(zip(pool3, names))
+        xk, yk = [ren[k] for k in xk], [ren[k] for k in yk]
+        mode = rng.choice(["equal", "equal", "mixed", "with-one"])
+        if mode == "equal":
+            sz = rng.choice([2, 3])
+            sizes = {k: sz for k in names}
+        elif mode == "mixed":
+            sizes = dict(zip(names, rng.sample([2, 3, 4], 3)))
+        else:
+            sizes = dict(zip(names, rng.sample([1, 2, 2], 3)))
+        opname = rng.choice(["axpy", "axpy", "sub2", "outer", "iaxpy", "unary3"])
+        op, fn, xe, ye, dt = made[opname]
+
+        def mk(keys, ev, off):
+            shape = [sizes[k] for k in keys] + list(ev)
+            nel = int(np.prod(shape)) if shape else 1
+            if dt == "real":
+                return Tensor(np.arange(float(nel)).reshape(shape) + off, OrderedDict((k, Bint[sizes[k]]) for k in keys))
+            return Tensor(np.arange(nel).reshape(shape) + int(off), OrderedDict((k, Bint[sizes[k]]) for k in keys), dt)
+        x = mk(xk, xe, 1.0)
+        c = {"stream": "makeop", "op": opname, "sizes": sizes, "x": xk, "y": yk if ye is not None else None}
+        if ye is None:
+            r = run(lambda: op(x))
+            y = None
+        else:
+            y = mk(yk, ye, 5.0 if dt != "real" else 0.25)
+            r = run(lambda: op(x, y))
+        todo.append((c, opname, x, y, r))
+    reqs = []
+    for c, opname, x, y, r in todo:
+        if opname in ("axpy", "sub2", "iaxpy") and y is not None:
+            enc = [enc_tensor({"inputs": [(k, int(d.size)) for k, d in t.inputs.items()],
+                               "shape": [int(v) for v in t.data.shape], "dtype": "real",
+                               "flat": [int(round(float(v) * 4)) for v in np.asarray(t.data, dtype=float).ravel()]})
+                   for t in (x, y)]
+            reqs.append(f"C19 madeop {opname} {sx(enc[0])} {sx(enc[1])}")
+        else:
+            reqs.append(None)
+    live = [q for q in reqs if q is not None]
+    answers = iter(ctx.driver.ask(live) if (use_driver and live) else [])
+    for (c, opname, x, y, r), q in zip(todo, reqs):
+        ans = next(answers) if (q is not None and use_driver) else None
+        op, fn, xe, ye, dt = made[opname]
+        ctx.count(f"makeop:op={opname}")
+        xk = c["x"]
+        yk = c["y"] or []
+        sizes = c["sizes"]
+        ctx.count("makeop:order=" + ("same-keys-other-order" if set(xk) == set(yk) and xk != yk and yk else
+                                     "overlap" if set(xk) & set(yk) else "disjoint-or-unary"))
+        py = py_makeop_snippet(c) if opname == "axpy" else None
+        if r[0] == "raise" or not isinstance(r[1], (Tensor, Number)):
+            ctx.count("makeop:declined")
+            ctx.case()
+            continue
+        z = r[1]
+        # the rule's order: dims assigned over reversed inputs, first operand first; result in dim order
+        order = []
+        for keys in (xk, yk):
+            for k in reversed(keys):
+                if k not in order:
+                    order.append(k)
+        exp_keys = [k for k in reversed(order) if sizes[k] != 1]
+        names = list(dict.fromkeys(xk + yk))
+        zk = list(z.inputs)
+        if sorted(zk) != sorted(exp_keys) or any(z.inputs[k].size != sizes[k] for k in zk):
+            ctx.fail("input", "C19.makeop-inputs", witness=c, python=py, expected=str(exp_keys), got=str(zk))
+            continue
+        bad = None
+        for pt in itertools.product(*[range(sizes[k]) for k in names]):
+            env = dict(zip(names, pt))
+            xv = np.asarray(x.data)[tuple(env[k] for k in xk)]
+            e = fn(xv) if y is None else fn(xv, np.asarray(y.data)[tuple(env[k] for k in yk)])
+            g = np.asarray(z.data)[tuple(env[k] for k in zk)] if zk else np.asarray(z.data)
+            if not np.array_equal(np.asarray(g, dtype=float), np.asarray(e, dtype=float)):
+                bad = (env, np.asarray(e).tolist(), np.asarray(g).tolist())
+                break
+        if bad:
+            ctx.fail("input", "C19.makeop-value-at-named-point", witness=dict(c, point=bad[0]), python=py,
+                     expected=str(bad[1]), got=str(bad[2]))
+            continue
+        if zk != exp_keys:
+            ctx.fail("correspondence", "C19.makeop-inputs-order", witness=c, python=py, expected=str(exp_keys), got=str(zk))
+            continue
+        if ans is not None:
+            m = dec(ans)
+            if m[0] != "tensor":
+                ctx.fail("correspondence", "C19.model-vs-impl-makeop", witness=c, python=py, expected=str(m), got="a tensor")
+                continue
+            zo = {"inputs": [(k, sizes[k]) for k in zk], "shape": [int(v) for v in np.shape(z.data)],
+                  "flat": [int(round(float(v) * 4)) for v in np.asarray(z.data, dtype=float).ravel()]}
+            mo = {k: m[1][k] for k in ("inputs", "shape", "flat")}
+            if mo != zo:
+                ctx.fail("correspondence", "C19.model-vs-impl-makeop", witness=c, python=py, expected=str(mo), got=str(zo))
+                continue
+            ctx.count("makeop:model-agrees")
+        ctx.case(nontrivial_key=("makeop", opname, str(sizes), tuple(xk), tuple(yk)) if len(names) >= 2 else None)
+
+
+# ------------------------------------------------------------------------------------------
 # stream: index arithmetic of the model vs numpy
 # ------------------------------------------------------------------------------------------
 
@@ -1689,6 +1914,7 @@ def correspond(ctx):
     slice_stream(ctx, 150 if quick else 1500)
     history_stream(ctx, 400 if quick else 4000)
     classes_stream(ctx, 25 if quick else 250)
+    makeop_stream(ctx, 400 if quick else 3000)
     ctx.exhaustive = True
     ctx.assumptions.append("numpy reshape / transpose / broadcast_to are modelled by their index-level "
                            "specification (row-major ravel/unravel), not verified")
@@ -1727,3 +1953,6 @@ def search(ctx, broken):
     if found():
         return
     classes_stream(ctx, 250)
+    if found():
+        return
+    makeop_stream(ctx, 3000, use_driver=False)
